@@ -133,6 +133,11 @@ pub const NEAR_KINDS: &[&str] = &[
     "global-struct-missing-field",
     "global-struct-extra-field",
     "global-struct-duplicate-field",
+    "binding-shadows-param",
+    "binding-shadows-local",
+    "binding-shadows-global",
+    "binding-shadows-outer-binding",
+    "binding-shadows-param-expr",
 ];
 
 const INTS: &[i64] = &[
@@ -439,6 +444,29 @@ impl<'a> Gen<'a> {
                 let y = self.fresh();
                 let _ = b;
                 plan.push((format!("Ok({x}) | Err({y})"), Some((x, (**a).clone()))));
+            }
+            Ty::Opt(it) if matches!(**it, Ty::Bool | Ty::Enum(_)) && self.rng.chance(1, 2) => {
+                // exhaustive by counting nested literals, no default arm, no binding
+                let mut pats: Vec<String> = match &**it {
+                    Ty::Bool => vec!["Some(true)".into(), "Some(false)".into()],
+                    Ty::Enum(i) => {
+                        let (n, vs) = self.s.enums[*i].clone();
+                        vs.iter().map(|v| format!("Some({n}::{v})")).collect()
+                    }
+                    _ => vec![],
+                };
+                pats.push("None".into());
+                self.rng.shuffle(&mut pats);
+                for p in pats {
+                    plan.push((p, None));
+                }
+            }
+            Ty::Res(a, b) if **a == Ty::Bool && **b == Ty::Bool && self.rng.chance(1, 2) => {
+                let mut pats: Vec<String> = vec!["Ok(true)".into(), "Ok(false)".into(), "Err(true)".into(), "Err(false)".into()];
+                self.rng.shuffle(&mut pats);
+                for p in pats {
+                    plan.push((p, None));
+                }
             }
             Ty::Opt(it) => {
                 let x = self.fresh();
@@ -1058,6 +1086,43 @@ impl<'a> Gen<'a> {
                     ),
                 };
                 self.add_fn(vec![("q".into(), Ty::Bool)], Ty::Int, body);
+            }
+            k @ ("binding-shadows-param" | "binding-shadows-local" | "binding-shadows-global" | "binding-shadows-outer-binding"
+            | "binding-shadows-param-expr") => {
+                // a `Some(x)` / `Ok(x)` binding whose name is already a parameter, a local, a global
+                // or an outer match binding (control: a fresh name); the arm is taken whenever the
+                // argument is `Some(..)` / `Ok(..)`
+                let res = self.rng.chance(1, 3);
+                let (qt, pat, other) = if res {
+                    (Ty::Res(Box::new(Ty::Int), Box::new(Ty::Bool)), "Ok", "Err(e9)")
+                } else {
+                    (Ty::Opt(Box::new(Ty::Int)), "Some", "None")
+                };
+                let fresh = "z9".to_string();
+                let mut params = vec![("q".to_string(), qt)];
+                let (pre, name) = match k {
+                    "binding-shadows-param" | "binding-shadows-param-expr" => {
+                        params.push(("w".into(), Ty::Int));
+                        (String::new(), "w".to_string())
+                    }
+                    "binding-shadows-local" => ("let w = 1\n".to_string(), "w".to_string()),
+                    "binding-shadows-global" => {
+                        let g = format!("G{}", self.globals.len());
+                        self.globals_src.push_str(&format!("let {g} = 5\n"));
+                        self.globals.push((g.clone(), Ty::Int));
+                        (String::new(), g)
+                    }
+                    _ => (String::new(), "w".to_string()),
+                };
+                let b = if mistyped { name.clone() } else { fresh };
+                let body = match k {
+                    "binding-shadows-outer-binding" => format!(
+                        "match (q) {{\n{pat}(w) => {{\nmatch (q) {{\n{pat}({b}) => {{\nreturn {b}\n}}\n_ => {{\nreturn 1\n}}\n}}\n}}\n{other} => {{\nreturn 0\n}}\n}}\nreturn 2"
+                    ),
+                    "binding-shadows-param-expr" => format!("return match (q) {{ {pat}({b}) => ({b}) {other} => (0) }}"),
+                    _ => format!("{pre}match (q) {{\n{pat}({b}) => {{\nreturn {b}\n}}\n{other} => {{\nreturn 0\n}}\n}}\nreturn 2"),
+                };
+                self.add_fn(params, Ty::Int, body);
             }
             k @ ("global-struct-field-type" | "global-struct-missing-field" | "global-struct-extra-field" | "global-struct-duplicate-field") => {
                 // a global `let` with a struct literal that does not conform to the definition
